@@ -73,6 +73,13 @@ RECURSIVE StreamG(_, _, _)
 StreamGStep(r, n) == StreamG(r[2], n, r[1])
 StreamG(zs, n, acc) == IF n = 0 THEN <<acc, zs>> ELSE IF n <= 64 THEN StreamC(zs, n, acc) ELSE StreamGStep(StreamC(zs, 64, acc), n - 64)
 Request(zs, n) == StreamG(zs, n, <<>>)
+\* does one of the n rounds from state zs START with a memory word of F equal to zero?  (2^-32 per round: sessions with such a round are searched by the
+\* driver and recognised here)
+RECURSIVE RZeroC(_, _)
+RZeroC(zs, n) == IF n = 0 THEN FALSE ELSE zs.r1 = <<0,0>> \/ zs.r2 = <<0,0>> \/ RZeroC(Produce(zs)[2], n - 1)
+RECURSIVE RZeroG(_, _)
+RZeroG(zs, n) == IF n <= 0 THEN FALSE ELSE IF n <= 64 THEN RZeroC(zs, n) ELSE RZeroC(zs, 64) \/ RZeroG(StreamC(zs, 64, <<>>)[2], n - 64)
+RZero(zs, n) == RZeroG(zs, n)
 KeyStream(key, iv, n) == Request(Start(key, iv), n)[1]
 \* ---- classification of a (key, IV) pair: does one of the six additions of the FIRST initialisation round have operands that sum to exactly
 \*      2^31-1, 2^31 or 2^31+1 (the boundary of the modular reduction)?  Random pairs do with probability 2^-29; the driver searches for them. ----
